@@ -663,6 +663,7 @@ def run(ctx):
     # ---- re-execute every rejected instance alone before reporting it
     byid = {c["id"] + nrow: c for c in cases}
     seen = set()
+    bad.sort()
     MAXSIG = 12          # every reported signature costs one re-execution (harness + TLC)
     for rid, law, j, k, cnt in bad:
         if len(seen) >= MAXSIG:
